@@ -379,6 +379,7 @@ pub enum Ty {
 impl Ty {
     pub fn admits(&self, v: &V) -> bool {
         match (self, v) {
+            (Ty::Union(ts), v) => ts.iter().any(|t| t.admits(v)),
             (Ty::Expref, V::X(_)) => true,
             (Ty::Expref, _) => false,
             (_, V::X(_)) => false, // an expression reference is never a value
@@ -392,7 +393,6 @@ impl Ty {
             (Ty::ArrayOf(t), V::J(Value::Array(xs))) => {
                 xs.iter().all(|x| t.admits(&V::J(x.clone())))
             }
-            (Ty::Union(ts), v) => ts.iter().any(|t| t.admits(v)),
             _ => false,
         }
     }
